@@ -549,6 +549,7 @@ func sidOf(f string) int64 {
 }
 
 func (r *sRun) step(op string, do func()) {
+	beginOp(op)
 	do()
 	r.ops.add(op, r.observe())
 }
